@@ -251,6 +251,43 @@ def initialKeys (ver : Nat) (dcid : Bytes) : InitialKeys × InitialKeys :=
 /-- RFC 9001 §5.4.3: `mask = AES-ECB(hp_key, sample)`, first 5 bytes -/
 def aesHPMask (hpKey sample : Bytes) : Bytes := (aes128 hpKey sample).take 5
 
+/-! ### ChaCha20 (RFC 8439 §2.3) for the header protection of TLS_CHACHA20_POLY1305_SHA256 -/
+
+def rotl32 (x : UInt32) (n : UInt32) : UInt32 := (x <<< n) ||| (x >>> (32 - n))
+def le32 (a b c d : UInt8) : UInt32 := be32 d c b a
+def wordsLE : Bytes → List UInt32
+  | a :: b :: c :: d :: rest => le32 a b c d :: wordsLE rest
+  | _ => []
+def u32BytesLE (x : UInt32) : Bytes := (u32Bytes x).reverse
+
+/-- RFC 8439 §2.1 quarter round on the state words `a b c d` -/
+def quarterRound (s : Array UInt32) (a b c d : Nat) : Array UInt32 := Id.run do
+  let mut s := s
+  s := s.set! a (s[a]! + s[b]!); s := s.set! d (rotl32 (s[d]! ^^^ s[a]!) 16)
+  s := s.set! c (s[c]! + s[d]!); s := s.set! b (rotl32 (s[b]! ^^^ s[c]!) 12)
+  s := s.set! a (s[a]! + s[b]!); s := s.set! d (rotl32 (s[d]! ^^^ s[a]!) 8)
+  s := s.set! c (s[c]! + s[d]!); s := s.set! b (rotl32 (s[b]! ^^^ s[c]!) 7)
+  return s
+
+/-- RFC 8439 §2.3: one 64-byte key stream block; the constants are the ASCII string "expand 32-byte k" -/
+def chacha20Block (key : Bytes) (counter : UInt32) (nonce : Bytes) : Bytes := Id.run do
+  let init : Array UInt32 := (wordsLE "expand 32-byte k".toUTF8.toList ++ wordsLE key ++ [counter] ++ wordsLE nonce).toArray
+  let mut s := init
+  for _ in [0:10] do
+    s := quarterRound s 0 4 8 12; s := quarterRound s 1 5 9 13; s := quarterRound s 2 6 10 14; s := quarterRound s 3 7 11 15
+    s := quarterRound s 0 5 10 15; s := quarterRound s 1 6 11 12; s := quarterRound s 2 7 8 13; s := quarterRound s 3 4 9 14
+  return (List.range 16).flatMap fun i => u32BytesLE (s[i]! + init[i]!)
+
+/-- RFC 9001 §5.4.4: `counter = sample[0..3]` (little endian), `nonce = sample[4..15]`,
+    `mask = ChaCha20(hp_key, counter, nonce, {0,0,0,0,0})` — a function of key and sample ONLY -/
+def chachaHPMask (hpKey sample : Bytes) : Bytes :=
+  match wordsLE (sample.take 4) with
+  | [c] => (chacha20Block hpKey c (sample.drop 4)).take 5
+  | _ => []
+
+/-- header protection key of a traffic secret for TLS_CHACHA20_POLY1305_SHA256 (SHA-256, 32-byte key) -/
+def chachaHPKey (ver : Nat) (secret : Bytes) : Bytes := hkdfExpandLabel secret (Rfc.hpLabel ver) 32
+
 /-- RFC 9001 §5.8 / RFC 9369 §3.3.3 -/
 
 def retryIntegrityTag (ver : Nat) (odcid retry : Bytes) : Bytes :=
@@ -282,5 +319,9 @@ private def h (s : String) : Bytes := (ofHex s).getD []
   (h "0263db1782731bf4588e7e4d93b7463907cb8cd8200b5da55a8bd488eafc37c1", h "82db637861d55e1d011f19ea71d5d2a7", h "dd13c276499c0249d3310652")
 -- RFC 9001 A.2: sample of the client Initial and its mask
 #guard toHex (aesHPMask (h "9f50449e04a0e810283a1e9933adedd2") (h "d1b1c98dd7689fb8ec11d242b123dc9b")) == "437b9aec36"
+-- RFC 8439 §2.3.2 block function vector, RFC 9001 Appendix A.5 (ChaCha20-Poly1305 short header packet)
+#guard toHex ((chacha20Block (h "000102030405060708090a0b0c0d0e0f101112131415161718191a1b1c1d1e1f") 1 (h "000000090000004a00000000")).take 16) == "10f1e7e4d13b5915500fdd1fa32071c4"
+#guard toHex (chachaHPMask (h "25a282b9e82f06f21f488917a4fc8f1b73573685608597d0efcb076b0ab7a7a4") (h "5e5cd55c41f69080575d7999c25a5bfb")) == "aefefe7d03"
+#guard toHex (chachaHPKey 1 (h "9ac312a7f877468ebe69422748ad00a15443f18203a07d6060f688f30f21632b")) == "25a282b9e82f06f21f488917a4fc8f1b73573685608597d0efcb076b0ab7a7a4"
 
 end Uquic.Model.Prim
